@@ -12,6 +12,7 @@ TARGETS = [
     ("lifedrv", ["lifedrv.cpp"], {"sessions": 4, "epoch_time": 2}),
     ("stepdrv", ["stepdrv.cpp"], {"sessions": 16}),
     ("stepdrv2", ["stepdrv2.cpp"], {"sessions": 16}),
+    ("stepdrv3", ["stepdrv3.cpp"], {"sessions": 16}),
     ("orddrv", ["orddrv.cpp"], {"sessions": 16}),
     ("mapdrv", ["mapdrv.cpp"], {"sessions": 16, "epoch_time": 5}),
 ]
